@@ -185,7 +185,13 @@ func (sd SpecDifferences) reportChanges(compat Compatibility) io.Reader {
 // ReportAllDiffs lists all the diffs between two specs
 func (sd SpecDifferences) ReportAllDiffs(fmtJSON bool) (io.Reader, error, error) {
 	if fmtJSON {
-		b, err := JSONMarshal(sd)
+		// same order as the text report, whatever order the differences were found in
+		sorted := make(SpecDifferences, len(sd))
+		copy(sorted, sd)
+		sort.SliceStable(sorted, func(i, j int) bool {
+			return sorted[i].String() < sorted[j].String()
+		})
+		b, err := JSONMarshal(sorted)
 		if err != nil {
 			return nil, fmt.Errorf("couldn't print results: %v", err), nil
 		}
